@@ -9,6 +9,7 @@ package main
 //   proxy_retry_checks_direct : doRetry has a top-level `if s.directResponse { return }` (go/ast)
 //   proxy_retry_refinalizes : doRetry calls FinalizeRequestHeaders (go/ast); proxy_timers_reset_stream : onPerReqTimeout and
 //                          onResponseTimeout call upstreamRequest.resetStream() (go/ast)
+//   proxy_hijack_clears_body : sendHijackReply assigns downstreamRespDataBuf = nil at top level (go/ast)
 //   proxy_put_resets_cursor : streamfilter.PutStreamFilterChain (or a chain method it calls) assigns 0 to both cursors (go/ast)
 //   proxy_default_global_ms : types.GlobalTimeout (evaluated)
 //   proxy_reason_code    : types.ConvertReasonToCode evaluated on every reset reason (runs the real function)
@@ -230,6 +231,23 @@ func genProxyTokens(repo string) (string, error) {
 	fmt.Fprintf(&b, "Definition proxy_retry_refinalizes : bool := %v.\n", refin)
 	fmt.Fprintf(&b, "Definition proxy_timers_reset_stream : bool := %v.\n", r1 && r2)
 
+	// --- does sendHijackReply (the body-less hijack) drop a response body stored earlier?  (top-level `s.downstreamRespDataBuf = nil`)
+	hcb := false
+	if sh := FindFunc(f, "downStream", "sendHijackReply"); sh != nil {
+		for _, st := range sh.Body.List {
+			if as, isAs := st.(*ast.AssignStmt); isAs && len(as.Lhs) == 1 && len(as.Rhs) == 1 {
+				if l, isL := as.Lhs[0].(*ast.SelectorExpr); isL && l.Sel.Name == "downstreamRespDataBuf" {
+					if id, isID := as.Rhs[0].(*ast.Ident); isID && id.Name == "nil" {
+						hcb = true
+					}
+				}
+			}
+		}
+	} else {
+		ok = false
+	}
+	fmt.Fprintf(&b, "Definition proxy_hijack_clears_body : bool := %v.\n", hcb)
+
 	// --- retry budget default and reset() shape
 	_, rf, err := ParseGoFile(repo, "pkg/proxy/retrystate.go")
 	if err != nil {
@@ -300,7 +318,7 @@ func genProxyTokens(repo string) (string, error) {
 		}
 	}
 	fmt.Fprintf(&b, "Definition proxy_default_global_ms : Z := %d.\n", int64(types.GlobalTimeout/time.Millisecond))
-	b.WriteString("Definition proxy_src : srcp :=\n  {| loop_bound := proxy_loop_bound; min_budget := proxy_min_budget; reset_guarded := proxy_reset_guarded;\n     direct_clears_again := proxy_direct_clears_again;\n     direct_cancels_retry := proxy_direct_cancels_retry; direct_resets_upstream := proxy_direct_resets_upstream;\n     put_resets_cursor := proxy_put_resets_cursor;\n     retry_checks_direct := proxy_retry_checks_direct; retry_refinalizes := proxy_retry_refinalizes;\n     timers_reset_stream := proxy_timers_reset_stream; reason_code := proxy_reason_code |}.\n")
+	b.WriteString("Definition proxy_src : srcp :=\n  {| loop_bound := proxy_loop_bound; min_budget := proxy_min_budget; reset_guarded := proxy_reset_guarded;\n     direct_clears_again := proxy_direct_clears_again;\n     direct_cancels_retry := proxy_direct_cancels_retry; direct_resets_upstream := proxy_direct_resets_upstream;\n     put_resets_cursor := proxy_put_resets_cursor;\n     retry_checks_direct := proxy_retry_checks_direct; retry_refinalizes := proxy_retry_refinalizes;\n     timers_reset_stream := proxy_timers_reset_stream; hijack_clears_body := proxy_hijack_clears_body;\n     reason_code := proxy_reason_code |}.\n")
 	fmt.Fprintf(&b, "Definition ProxyTokens_translator_ok := %v.\n", ok)
 	return b.String(), nil
 }
